@@ -51,7 +51,7 @@ def translate():
     status = {}
     for m in re.finditer(r"translate: (\S+) ok=(\w+) changed=(\w+) ?(.*)", out):
         status[m.group(1)] = {"ok": m.group(2) == "True", "changed": m.group(3) == "True", "reason": m.group(4).strip()}
-    if rc != 0 or len(status) < 3:
+    if rc != 0 or len(status) < 4:
         status["_error"] = out[-2000:]
     return status
 
@@ -120,7 +120,8 @@ def coq_audit_sources():
 
 
 PROP_FILES = {
-    "C02": ["C02", "C02u"], "C07": ["C07", "C07u"], "C09": ["C09", "C09u"], "C16": ["C16", "C16b"],
+    "C02": ["C02", "C02u"], "C07": ["C07", "C07u"], "C09": ["C09", "C09u", "C09t"], "C16": ["C16", "C16b"],
+    "C12": ["C12", "C12m"], "C14": ["C14", "C14m"],
     "C18": ["C18", "C18b"], "C20": ["C20", "C20b"], "C03": ["C03", "C03e"],
 }
 
